@@ -5,6 +5,7 @@
 import Proofs.SdProofs
 import Proofs.CtrRefines
 import Proofs.PyFileRefines
+import Proofs.SdRootKey
 namespace Pyctr.C14
 open Pyctr Pyctr.Sd
 
@@ -50,5 +51,36 @@ theorem C14_lengths (data : Bytes) :
 theorem C14_rw (E : Bytes → Bytes) :
     IsFileW (CtrIO.ops PyFile.ops E) (CtrIO.invCtr (fun _ => True) PyFile.abs) (CtrIO.absCtr E PyFile.abs) :=
   CtrIO.ctr_isFileW E pyfile_isFile.toIsFileW
+
+/-- **which key a card is opened with** (`SDFilesystem.__init__`, `SDRoot.__init__`): a non-empty `sd_key` decides; otherwise the
+    movable.sed file; otherwise the engine as it is (and it must hold a key) -/
+theorem C14_root_key (H : Bytes → Bytes) (e : Engine) (held : Option Bytes) (sdKey : Bytes) (file : Option Bytes) :
+    (sdKey ≠ [] → rootKey H e held sdKey file = setupSdKey H e sdKey) ∧
+    (sdKey = [] → ∀ d, file = some d → rootKey H e held sdKey file = setupSdKey H e d) ∧
+    (sdKey = [] → file = none → rootKey H e held sdKey file =
+      match held with | some i => .ok (e, i) | none => .error (.other "MissingMovableSedError")) :=
+  rootKey_choice H e held sdKey file
+
+/-- `setup_sd_key` on any engine: afterwards the three SD slots hold the key of the data **whatever they held before**, the
+    normal keys are the scrambler outputs, the ID0 is that of the key -/
+theorem C14_setup_replaces (H : Bytes → Bytes) (e : Engine) (data key : Bytes) (hk : sdKeyOf data = .ok key) :
+    ∃ e', setupSdKey H e data = .ok (e', id0Of H key) ∧
+      (∀ s, sdSlot s → e'.keyY s = some (readBE key)) ∧ (∀ s, e'.keyX s = e.keyX s) ∧
+      (∀ s, sdSlot s → ∀ x, e.keyX s = some x → e'.normal s = some (Pyctr.keygenSlot s x (readBE key))) :=
+  setupSdKey_spec H e data key hk
+
+/-- hence the card's keys do not depend on the engine's history: two engines with the same SD KeyX values (a fresh one, one that
+    loaded another console's movable.sed, …), given the same `sd_key`, end with the same SD keys and the same ID0 -/
+theorem C14_root_key_forgets (H : Bytes → Bytes) (e₁ e₂ : Engine) (h₁ h₂ f₁ f₂ : Option Bytes) (sdKey key : Bytes)
+    (hne : sdKey ≠ []) (hk : sdKeyOf sdKey = .ok key) (hx : ∀ s, sdSlot s → e₁.keyX s = e₂.keyX s) :
+    ∃ a b, rootKey H e₁ h₁ sdKey f₁ = .ok (a, id0Of H key) ∧ rootKey H e₂ h₂ sdKey f₂ = .ok (b, id0Of H key) ∧
+      (∀ s, sdSlot s → a.keyY s = b.keyY s) ∧
+      (∀ s, sdSlot s → ∀ x, e₁.keyX s = some x →
+        a.normal s = some (Pyctr.keygenSlot s x (readBE key)) ∧ b.normal s = a.normal s) :=
+  rootKey_forgets H e₁ e₂ h₁ h₂ f₁ f₂ sdKey key hne hk hx
+
+/-- non-vacuity: a 16-byte key is accepted as it is -/
+example : sdKeyOf (List.replicate 16 (7 : UInt8)) = .ok (List.replicate 16 7) ∧ (List.replicate 16 (7 : UInt8)) ≠ [] :=
+  ⟨by simp [sdKeyOf], by simp⟩
 
 end Pyctr.C14
